@@ -11,6 +11,10 @@ CFGS = {("C04", "quick"): ["MC_Sandbox_modes_q.cfg", "MC_Sandbox_modes2_q.cfg"],
         ("C04", "thorough"): ["MC_Sandbox_modes_q.cfg", "MC_Sandbox_modes2_q.cfg", "MC_Sandbox_modes_t.cfg"],
         ("C05", "thorough"): ["MC_Sandbox_modes_q.cfg", "MC_Sandbox_modes2_q.cfg", "MC_Sandbox_tracer_q.cfg", "MC_Sandbox_blocked_q.cfg", "MC_Sandbox_modes_t.cfg"],
         ("C15", "thorough"): ["MC_Sandbox_ledger_q.cfg", "MC_Sandbox_inputs_q.cfg", "MC_Sandbox_saved_q.cfg", "MC_Sandbox_ledger_t.cfg"]}
+SIMS = {("C04", "quick"): [("SIM_Sandbox_modes_deep.cfg", 50, 10)], ("C05", "quick"): [("SIM_Sandbox_modes_deep.cfg", 50, 10), ("SIM_Sandbox_deep.cfg", 75, 12)],
+        ("C15", "quick"): [("SIM_Sandbox_deep.cfg", 150, 12)],
+        ("C04", "thorough"): [("SIM_Sandbox_modes_deep.cfg", 1500, 10)], ("C05", "thorough"): [("SIM_Sandbox_modes_deep.cfg", 1500, 10), ("SIM_Sandbox_deep.cfg", 2500, 12)],
+        ("C15", "thorough"): [("SIM_Sandbox_deep.cfg", 6000, 12)]}
 MUTANTS = {"C04": [("MUT_Sandbox_fragile_capture.cfg", "Contained")],
            "C05": [("MUT_Sandbox_no_base_handler.cfg", "Restored"), ("MUT_Sandbox_tracer_conditional_restore.cfg", "Restored"),
                    ("MUT_Sandbox_tracer_not_reentrant.cfg", "Restored"),
@@ -88,6 +92,27 @@ def run(prop, tier, seed, ctx):
                 json.dumps({k: m["observed"].get(k) for k in mine + ["error"]}, default=repr)[:300],
                 json.dumps({k: m["expected"].get(k) for k in mine}, default=repr)[:200]), m)
     ctx.cov["exhaustive"] = True
+    # ---- deep random behaviours (tlc -simulate): histories three times as long as the exhaustive bound, every
+    # invariant evaluated by TLC along them, each behaviour replayed call by call like the exhaustive ones
+    for cfg, num, depth in SIMS[(prop, tier)]:
+        res = tlc.run("Sandbox", cfg, workers=4, timeout=900, simulate="num=%d" % num, extra=["-depth", str(depth), "-seed", str(1000 + seed)])
+        tlc.require_ok(res, "simulation " + cfg)
+        ctx.add_tlc(res, "simulation (%d behaviours of depth <= %d) %s" % (4 * num, depth, cfg))
+        uniq = list({json.dumps(r, sort_keys=True): r for r in res.records}.values())
+        if len(uniq) < num:
+            raise MachineryError("simulation of %s exported only %d behaviours" % (cfg, len(uniq)))
+        cases = list(enumerate(uniq))
+        mism = shard_map("bind.sandbox", "replay_chunk", cases)
+        ctx.cov["replayed_cases"] += len(cases)
+        ctx.cov["traces_validated_against_impl"] += len(cases)
+        ctx.count(len(cases), (json.dumps([r["file"], [h["a"] for h in r["hist"]]], sort_keys=True) for _, r in cases))
+        ctx.sample({"kind": "simulated behaviour", "cfg": cfg, "file": uniq[0]["file"], "actions": [h["a"] for h in uniq[0]["hist"]]})
+        for m in mism:
+            mine = [f for f in m["fields"] if f in PROP_KEYS[prop]]
+            if mine:
+                ctx.violation(key_of(prop, m, mine), "simulated behaviour, after step %d (%s, mode %s) real state differs from the specification in %s: observed %s expected %s" % (
+                    m["step"], m["action"]["op"], m.get("mode", "-"), mine, json.dumps({k: m["observed"].get(k) for k in mine})[:300],
+                    json.dumps({k: m["expected"].get(k) for k in mine})[:300]), m)
     if prop in ("C05", "C15"):
         # every sandbox execution of the repository's own test-suite, recorded through the guarded hooks
         from engine.suite import record_suite
